@@ -113,3 +113,83 @@ func (r *Result) TopTrace() string {
 	toks = append(toks, fmt.Sprintf("end,%s,%d", stuck, r.Leftover))
 	return "top " + r.Sc.Cfg() + " " + strings.Join(toks, " ")
 }
+
+// TopicStreams projects the log of a persistent scenario to one hook-event stream per topic, in the token language of
+// lean/WmModel/GcTopicConf.lean: "topic <tok>*". Where the harness logged `goals` (all owed deliveries acked, so every sender
+// goroutine has run) an EX<sid>:<u+u+…> token lists, for every subscription still registered and never cancelled, the
+// messages for which a sender really ran (gochannel.send.locked events so far); the model must have started exactly those.
+func (r *Result) TopicStreams() []string {
+	if !r.Sc.Persistent || r.Sc.Decorators > 0 || len(r.Stuck) > 0 {
+		return nil
+	}
+	uuidToSid := map[string]string{}
+	for sid, u := range r.SubUUID {
+		if u != "" {
+			uuidToSid[u] = strconv.Itoa(sid)
+		}
+	}
+	toks := map[string][]string{}
+	var topics []string
+	add := func(t, tok string) {
+		if _, ok := toks[t]; !ok {
+			topics = append(topics, t)
+		}
+		toks[t] = append(toks[t], tok)
+	}
+	senders := map[string][]string{} // sid -> message numbers whose sender ran
+	subTopic := map[string]string{}
+	removed := map[string]bool{}
+	cancelled := map[string]bool{}
+	var regOrder []string
+	for _, e := range r.Events {
+		switch e.Kind {
+		case "cx":
+			cancelled[e.F[0]] = true
+		case "goals":
+			for _, sid := range regOrder {
+				if n, err := strconv.Atoi(sid); err == nil && n < len(r.Sc.Subs) && (r.Sc.Subs[n].HoldAll || r.Sc.Subs[n].CancelAtRecv >= 0) {
+					continue // not part of the delivery goals: its queued senders need not have run yet
+				}
+				if !removed[sid] && !cancelled[sid] {
+					add(subTopic[sid], "EX"+sid+":"+strings.Join(senders[sid], "+"))
+				}
+			}
+		case "h":
+			switch e.F[0] {
+			case "gochannel.publish.locked":
+				add(e.F[1], "PL")
+			case "gochannel.publish.persisted":
+				add(e.F[1], "PP")
+			case "gochannel.publish.sent":
+				add(e.F[1], "PS"+strings.TrimPrefix(e.F[2], "m"))
+			case "gochannel.subscribe.locked":
+				add(e.F[1], "SL")
+			case "gochannel.subscribe.replay":
+				add(e.F[1], "SR")
+			case "gochannel.subscribe.registered":
+				sid, ok := uuidToSid[e.F[2]]
+				if !ok {
+					return nil // a subscription the harness cannot name (Subscribe did not return): no stream
+				}
+				add(e.F[1], "SG"+sid)
+				subTopic[sid] = e.F[1]
+				regOrder = append(regOrder, sid)
+			case "gochannel.unsubscribe.before_remove":
+				if sid, ok := uuidToSid[e.F[2]]; ok {
+					add(e.F[1], "UN"+sid)
+					removed[sid] = true
+				}
+			case "gochannel.send.locked":
+				if sid, ok := uuidToSid[e.F[1]]; ok {
+					senders[sid] = append(senders[sid], strings.TrimPrefix(e.F[2], "m"))
+				}
+			}
+		}
+	}
+	var out []string
+	sort.Strings(topics)
+	for _, t := range topics {
+		out = append(out, "topic "+strings.Join(toks[t], " "))
+	}
+	return out
+}
